@@ -1252,4 +1252,512 @@ Section WInv.
     - intros x Hx. pose proof (C1 x Hx). fold id in H. lia.
     - repeat split; reflexivity.
   Qed.
+
+  (* ---------------------------------------------------------------- poll_call *)
+  Lemma NoDup_snoc {A} (l : list A) (x : A) : NoDup l -> ~ In x l -> NoDup (l ++ [x]).
+  Proof.
+    induction l as [|y r IH]; cbn; intros H Hn; [constructor; [intros []|constructor]|].
+    inversion H as [|? ? Hy Hr]; subst. constructor.
+    - rewrite in_app_iff. cbn. intros [X|[X|[]]]; [contradiction|]. apply Hn. left; symmetry; exact X.
+    - apply IH; [exact Hr|]. intro X. apply Hn. right; exact X.
+  Qed.
+  Definition UI s s' : Prop :=
+    IX s' /\ GL s' /\ rx_closed s' = rx_closed s /\ (rx_closed s = true -> queue s' = queue s).
+
+  Definition mkq (c : call) (id : N) (tc : tctx) : qitem :=
+    {| q_id := id; q_deadline := c_deadline c; q_tc := tc; q_body := c_body c |}.
+  Definition enq_state s i (c : call) id tc : cstate :=
+    set_phase (upd_q s (permits s) (queue s ++ [mkq c id tc]) (waiters s) (rx_closed s)) i PAwaiting.
+  Lemma enqueue_eq s i c id tc : enqueue s i c id tc = poll_slot (enq_state s i c id tc) i id.
+  Proof. reflexivity. Qed.
+
+  Lemma enq_awaiting s i c id tc k :
+    nth_error (calls (enq_state s i c id tc)) i = Some k -> c_phase k = PAwaiting.
+  Proof.
+    intro H. destruct (nth_set_phase_inv _ _ _ _ _ H) as (k0 & _ & _ & [[X _]|[_ X]]); [congruence|exact X].
+  Qed.
+
+  Lemma GL_enq s i c id tc : GL s -> (forall k, nth_error (calls s) i = Some k -> c_id k = id) ->
+    GL (enq_state s i c id tc).
+  Proof.
+    intros G Hid. unfold enq_state. apply GL_set_phase.
+    - apply (GL_mono s); [reflexivity| |exact G].
+      intros y [L|[L|L]]; unfold loc; cbn [queue inflight upd_q].
+      + left. rewrite map_app, in_app_iff. left; exact L.
+      + right; left; exact L.
+      + right; right; exact L.
+    - intros _ k Ek. cbn [calls upd_q] in Ek. rewrite (Hid k Ek). left. cbn [queue upd_q].
+      rewrite map_app, in_app_iff. right. left. reflexivity.
+  Qed.
+
+  Lemma poll_call_new s i c :
+    nth_error (calls s) i = Some c -> c_phase c = PNew ->
+    poll_call s i =
+    let id := next_id s in
+    let s1 := fp_state s i c in
+    let tc := {| tc_tid := tc_tid (c_tc c); tc_sid := id; tc_sampled := tc_sampled (c_tc c) |} in
+    if rx_closed s1 then fail_shutdown s1 i id
+    else match permits s1 with
+         | S p => enqueue (upd_q s1 p (queue s1) (waiters s1) (rx_closed s1)) i c id tc
+         | O => (CPending, set_phase (upd_q s1 O (queue s1) (waiters s1 ++ [i]) (rx_closed s1)) i PAcquiring)
+         end.
+  Proof. intros E P. unfold poll_call. rewrite E, P. reflexivity. Qed.
+
+  Lemma poll_call_UI s i : IX s -> GL s -> NW s -> UI s (snd (poll_call s i)).
+  Proof.
+    intros X G Hnw. unfold UI.
+    destruct (nth_error (calls s) i) as [c|] eqn:Ec;
+      [|unfold poll_call; rewrite Ec; cbn [snd]; auto].
+    destruct (c_phase c) eqn:Hp;
+      try (unfold poll_call; rewrite Ec, Hp; cbn [snd]; auto; fail).
+    - (* PNew *)
+      rewrite (poll_call_new s i c Ec Hp). cbv zeta.
+      destruct (first_poll_facts s i c X G Hnw Ec Hp) as (A1 & C1 & W1 & G1 & Ei & En & Hne & Hcn & Rc & Rq & Rp & Rw).
+      set (s1 := fp_state s i c) in *. set (id := next_id s) in *.
+      assert (Hlt : id < next_id s1) by (rewrite En; lia).
+      destruct (rx_closed s1) eqn:Ecl.
+      + (* closed: the send fails *)
+        rewrite fail_shutdown_eq. cbn [snd].
+        assert (Ei' : nth_error (calls (fs_pre s1 id)) i = Some (with_cid c id)) by (rewrite fsp_calls; exact Ei).
+        split; [constructor|split; [|split]].
+        * eapply GA_set_phase_new; [apply GAd_fs_pre, A1|exact Ei'|exact Hp|discriminate|discriminate].
+        * eapply GC_finish; [apply fsp_calls|apply fsp_next_id|apply fsp_cancels_in|exact C1|exact Hlt|exact Hne|reflexivity].
+        * apply GW_set_phase; [apply GW_fs_pre, W1| |discriminate|discriminate].
+          intros k Ek. rewrite Ei' in Ek. injection Ek as <-. cbn. rewrite Hp. split; discriminate.
+        * apply GL_fs_finish; [exact G1|discriminate].
+        * rewrite sp_rx_closed, fsp_rx_closed. congruence.
+        * intros _. rewrite sp_queue, fsp_queue. exact Rq.
+      + destruct (permits s1) as [|p] eqn:Ep.
+        * (* no permit: wait *)
+          cbn [snd]. set (x := upd_q s1 0 (queue s1) (waiters s1 ++ [i]) false).
+          assert (Ex : nth_error (calls x) i = Some (with_cid c id)) by exact Ei.
+          split; [constructor|split; [|split]].
+          -- eapply GA_set_phase_new; [eapply GA_frame; [| |exact A1]; reflexivity|exact Ex|exact Hp|discriminate|].
+             intros _. split; [exact Hlt|exact Hne].
+          -- eapply GC_set_phase_fresh; [eapply GC_frame; [| | |exact C1]; reflexivity|exact Ex|exact Hcn].
+          -- destruct W1 as [V1 V2 V3 V4 V5 V6].
+             constructor; rewrite ?sp_waiters, ?sp_rx_closed, ?sp_permits, ?sp_queue, ?sp_q_cap;
+               cbn [x waiters rx_closed permits queue q_cap calls upd_q].
+             ++ intros w Hw. apply in_app_iff in Hw. rewrite nth_set_phase.
+                destruct (Nat.eqb_spec w i) as [->|Hn].
+                ** rewrite Ex. cbn. eexists; split; reflexivity.
+                ** destruct Hw as [Hw|[Hw|[]]]; [|congruence]. destruct (V1 w Hw) as (k & Ek & Ekp). eauto.
+             ++ apply NoDup_snoc; [exact V2|]. intro Hin. destruct (V1 i Hin) as (k & Ek & Ekp).
+                rewrite Ei in Ek. injection Ek as <-. cbn in Ekp. congruence.
+             ++ reflexivity.
+             ++ intros j k' Hj Hph. apply in_app_iff.
+                destruct (nth_set_phase_inv _ _ _ _ _ Hj) as (k0 & Ek0 & _ & [[Hn ->]|[-> _]]).
+                ** left. eapply V4; eassumption.
+                ** right. left. reflexivity.
+             ++ congruence.
+             ++ intros _. specialize (V6 Ecl). rewrite Ep in V6.
+                pose proof (count_set_phase is_asg x i PAcquiring _ Ex) as H.
+                assert (X1 : is_asg (with_cid c id) = false) by (unfold is_asg; cbn; rewrite Hp; reflexivity).
+                assert (X2 : is_asg (with_phase (with_cid c id) PAcquiring) = false) by reflexivity.
+                rewrite X1, X2 in H. cbn [b2n] in H.
+                cbn [x calls upd_q] in H. lia.
+          -- apply GL_set_phase; [|discriminate]. eapply GL_frame; [| | | |exact G1]; reflexivity.
+          -- rewrite sp_rx_closed. cbn [x rx_closed upd_q]. exact Rc.
+          -- intro. congruence.
+        * (* a permit: enqueue *)
+          rewrite enqueue_eq.
+          set (tc := {| tc_tid := tc_tid (c_tc c); tc_sid := id; tc_sampled := tc_sampled (c_tc c) |}).
+          set (x := upd_q s1 p (queue s1) (waiters s1) false).
+          assert (Ex : nth_error (calls x) i = Some (with_cid c id)) by exact Ei.
+          assert (Wx : GW 1 x).
+          { destruct W1 as [V1 V2 V3 V4 V5 V6]. constructor; try assumption.
+            - intros _ Hw. specialize (V3 Ecl Hw). congruence.
+            - intros Hc. exfalso. cbn [x rx_closed upd_q] in Hc. discriminate.
+            - intros _. specialize (V6 Ecl). rewrite Ep in V6. cbn [x queue permits calls q_cap upd_q]. lia. }
+          assert (Xe : IX (enq_state x i c id tc)).
+          { constructor.
+            - eapply GA_set_phase_new; [eapply GA_frame; [| |exact A1]; reflexivity|exact Ex|exact Hp|discriminate|].
+              intros _. split; [exact Hlt|exact Hne].
+            - eapply GC_set_phase_fresh; [eapply GC_frame; [| | |exact C1]; reflexivity|exact Ex|exact Hcn].
+            - eapply (GW_enqueue 1 0); [exact Wx|exact Ex|cbn; congruence|].
+              unfold is_asg. cbn. rewrite Hp. reflexivity. }
+          assert (Ge : GL (enq_state x i c id tc)).
+          { apply GL_enq; [eapply GL_frame; [| | | |exact G1]; reflexivity|].
+            intros k Ek. rewrite Ex in Ek. injection Ek as <-. reflexivity. }
+          destruct (poll_slot_UI _ i id Xe Ge (enq_awaiting x i c id tc)) as (P1 & P2 & P3 & P4).
+          split; [exact P1|split; [exact P2|split]].
+          -- rewrite P3. unfold enq_state. rewrite sp_rx_closed. cbn [x rx_closed upd_q]. exact Rc.
+          -- intro. congruence.
+    - (* PAssigned *)
+      unfold poll_call. rewrite Ec, Hp.
+      assert (Hlt : c_id c < next_id s) by (apply (a_lt _ _ (ix_a _ X) i c Ec); rewrite Hp; reflexivity).
+      assert (Hne : forall j kj, nth_error (calls s) j = Some kj -> j <> i -> idp (c_phase kj) = true ->
+                                 c_id kj <> c_id c).
+      { intros j kj Hj Hn Hid E. apply Hn. eapply (a_inj _ _ (ix_a _ X)); try eassumption. rewrite Hp; reflexivity. }
+      destruct (rx_closed s) eqn:Ecl.
+      + rewrite fail_shutdown_eq. cbn [snd].
+        set (x := upd_q s (S (permits s)) (queue s) (waiters s) true).
+        destruct X as [A C W].
+        split; [constructor|split; [|split]].
+        * apply GA_set_phase; [apply GAd_fs_pre; eapply GA_frame; [| |exact A]; reflexivity|discriminate|discriminate].
+        * eapply (GC_finish _ x); [apply fsp_calls|apply fsp_next_id|apply fsp_cancels_in
+                                  |eapply GC_frame; [| | |exact C]; reflexivity|exact Hlt|exact Hne|reflexivity].
+        * destruct (GW_closed_elim _ _ W Ecl) as [Hw Hn].
+          eapply (GW_set_phase_closed 0); [|rewrite fsp_rx_closed; reflexivity|discriminate].
+          apply GW_closed_intro; [rewrite fsp_rx_closed; reflexivity|rewrite fsp_waiters; exact Hw|].
+          rewrite fsp_calls. exact Hn.
+        * apply GL_fs_finish; [|discriminate]. eapply GL_frame; [| | | |exact G]; reflexivity.
+        * rewrite sp_rx_closed, fsp_rx_closed. reflexivity.
+        * intros _. rewrite sp_queue, fsp_queue. reflexivity.
+      + rewrite enqueue_eq.
+        set (tc := {| tc_tid := tc_tid (c_tc c); tc_sid := c_id c; tc_sampled := tc_sampled (c_tc c) |}).
+        assert (Xe : IX (enq_state s i c (c_id c) tc)).
+        { destruct X as [A C W]. constructor.
+          - apply GA_set_phase; [eapply GA_frame; [| |exact A]; reflexivity|discriminate|].
+            cbn [calls upd_q]. intros k Ek _. rewrite Ec in Ek. injection Ek as <-. rewrite Hp. reflexivity.
+          - apply GC_set_phase; [eapply GC_frame; [| | |exact C]; reflexivity|].
+            cbn [calls upd_q]. intros k Ek _. rewrite Ec in Ek. injection Ek as <-. rewrite Hp. reflexivity.
+          - eapply (GW_enqueue 0 0); [exact W|exact Ec|congruence|]. unfold is_asg. rewrite Hp. reflexivity. }
+        assert (Ge : GL (enq_state s i c (c_id c) tc)).
+        { apply GL_enq; [exact G|]. intros k Ek. congruence. }
+        destruct (poll_slot_UI _ i (c_id c) Xe Ge (enq_awaiting s i c (c_id c) tc)) as (P1 & P2 & P3 & P4).
+        split; [exact P1|split; [exact P2|split]].
+        * rewrite P3. unfold enq_state. rewrite sp_rx_closed. cbn [rx_closed upd_q]. exact Ecl.
+        * discriminate.
+    - (* PAcqClosed *)
+      unfold poll_call. rewrite Ec, Hp. rewrite fail_shutdown_eq. cbn [snd].
+      assert (Hlt : c_id c < next_id s) by (apply (a_lt _ _ (ix_a _ X) i c Ec); rewrite Hp; reflexivity).
+      assert (Hne : forall j kj, nth_error (calls s) j = Some kj -> j <> i -> idp (c_phase kj) = true ->
+                                 c_id kj <> c_id c).
+      { intros j kj Hj Hn Hid E. apply Hn. eapply (a_inj _ _ (ix_a _ X)); try eassumption. rewrite Hp; reflexivity. }
+      destruct X as [A C W].
+      split; [constructor|split; [|split]].
+      + apply GA_set_phase; [apply GAd_fs_pre, A|discriminate|discriminate].
+      + eapply (GC_finish _ s); [apply fsp_calls|apply fsp_next_id|apply fsp_cancels_in|exact C|exact Hlt|exact Hne|reflexivity].
+      + apply GW_set_phase; [apply GW_fs_pre, W| |discriminate|discriminate].
+        rewrite fsp_calls. intros k Ek. rewrite Ec in Ek. injection Ek as <-. rewrite Hp. split; discriminate.
+      + apply GL_fs_finish; [exact G|discriminate].
+      + rewrite sp_rx_closed, fsp_rx_closed. reflexivity.
+      + intros _. rewrite sp_queue, fsp_queue. reflexivity.
+    - (* PAwaiting *)
+      unfold poll_call. rewrite Ec, Hp.
+      destruct (poll_slot_UI s i (c_id c) X G) as (P1 & P2 & P3 & P4).
+      { intros k Ek. congruence. }
+      split; [exact P1|split; [exact P2|split; [exact P3|intros _; exact P4]]].
+  Qed.
+
+  (* ---------------------------------------------------------------- dropping a call *)
+  Lemma remove_waiter_in i w l : In w (remove_waiter i l) <-> In w l /\ w <> i.
+  Proof.
+    unfold remove_waiter. rewrite filter_In. rewrite negb_true_iff, Nat.eqb_neq. tauto.
+  Qed.
+
+  Lemma GW_unwait s i k :
+    GW 0 s -> nth_error (calls s) i = Some k -> c_phase k = PAcquiring ->
+    GW 0 (set_phase (upd_q s (permits s) (queue s) (remove_waiter i (waiters s)) (rx_closed s)) i PClosing).
+  Proof.
+    intros [A B C D E F] Ek Hp.
+    set (s1 := upd_q s (permits s) (queue s) (remove_waiter i (waiters s)) (rx_closed s)).
+    constructor; rewrite ?sp_waiters, ?sp_rx_closed, ?sp_permits, ?sp_queue, ?sp_q_cap;
+      cbn [s1 waiters rx_closed permits queue q_cap upd_q].
+    - intros w Hw. apply remove_waiter_in in Hw. destruct Hw as [Hw Hn].
+      destruct (A w Hw) as (k' & Ek' & Ep'). exists k'. split; [|exact Ep'].
+      rewrite nth_set_phase. destruct (Nat.eqb_spec w i); [contradiction|exact Ek'].
+    - apply NoDup_filter, B.
+    - intros Hc Hw. apply C; [exact Hc|]. intro X. apply Hw. rewrite X. reflexivity.
+    - intros j k' Hj Hph.
+      destruct (nth_set_phase_inv _ _ _ _ _ Hj) as (k0 & Ek0 & _ & [[Hn ->]|[-> Hph']]); [|congruence].
+      apply remove_waiter_in. split; [eapply D; eassumption|exact Hn].
+    - intro Hc. rewrite (E Hc). reflexivity.
+    - intro Hc. specialize (F Hc).
+      pose proof (count_set_phase is_asg s1 i PClosing k Ek) as H.
+      assert (X1 : is_asg k = false) by (unfold is_asg; rewrite Hp; reflexivity).
+      rewrite X1 in H. cbn [b2n is_asg with_phase c_phase] in H. cbn [s1 calls upd_q] in H. lia.
+  Qed.
+
+  Lemma GW_unassign s i k p :
+    GW 0 s -> nth_error (calls s) i = Some k -> c_phase k = PAssigned ->
+    p <> PAcquiring -> p <> PAssigned -> GW 1 (set_phase s i p).
+  Proof.
+    intros [A B C D E F] Ek Hp P1 P2.
+    constructor; rewrite ?sp_waiters, ?sp_rx_closed, ?sp_permits, ?sp_queue, ?sp_q_cap; try assumption.
+    - intros w Hw. destruct (A w Hw) as (k' & Ek' & Ep'). exists k'. split; [|exact Ep'].
+      rewrite nth_set_phase. destruct (Nat.eqb_spec w i) as [->|]; [congruence|exact Ek'].
+    - intros j k' Hj Hph.
+      destruct (nth_set_phase_inv _ _ _ _ _ Hj) as (k0 & Ek0 & _ & [[Hn ->]|[-> Hph']]); [|congruence].
+      eapply D; eassumption.
+    - intro Hc. specialize (F Hc).
+      pose proof (count_set_phase is_asg s i p k Ek) as H.
+      assert (X1 : is_asg k = true) by (unfold is_asg; rewrite Hp; reflexivity).
+      assert (X2 : is_asg (with_phase k p) = false) by (unfold is_asg; cbn; destruct p; congruence).
+      rewrite X1, X2 in H. cbn [b2n] in H. lia.
+  Qed.
+
+  Lemma guard_close_UI s i : IX s -> GL s -> UI s (guard_close s i).
+  Proof.
+    intros X G. unfold UI, guard_close.
+    destruct (nth_error (calls s) i) as [c|] eqn:Ec; [|auto].
+    destruct (c_phase c) eqn:Hp; auto.
+    - (* PNew *)
+      split; [|split; [apply GL_set_phase; [exact G|discriminate]
+                      |split; [apply sp_rx_closed|intros _; apply sp_queue]]].
+      apply IX_set_phase; [exact X|discriminate..|]. intros k Ek. rewrite Ec in Ek. injection Ek as <-.
+      rewrite Hp. repeat split; discriminate.
+    - (* PAcquiring *)
+      set (s1 := upd_q s (permits s) (queue s) (remove_waiter i (waiters s)) (rx_closed s)).
+      set (s2 := slot_rx_close (slot_tx_drop s1 (c_id c)) (c_id c)).
+      destruct X as [A C W].
+      assert (A1 : GA s1) by (eapply GA_frame; [| |exact A]; reflexivity).
+      assert (C1 : GC s1) by (eapply GC_frame; [| | |exact C]; reflexivity).
+      assert (G1 : GL s1) by (eapply GL_frame; [| | | |exact G]; reflexivity).
+      split; [constructor|split; [|split; [rewrite sp_rx_closed; reflexivity|intros _; rewrite sp_queue; reflexivity]]].
+      + apply GA_set_phase; [eapply GA_frame; [| |exact A1]; reflexivity|discriminate|].
+        intros k Ek _. change (calls s2) with (calls s) in Ek. rewrite Ec in Ek. injection Ek as <-.
+        rewrite Hp. reflexivity.
+      + apply GC_set_phase; [eapply GC_frame; [| | |exact C1]; reflexivity|].
+        intros k Ek _. change (calls s2) with (calls s) in Ek. rewrite Ec in Ek. injection Ek as <-.
+        rewrite Hp. reflexivity.
+      + pose proof (GW_unwait s i c W Ec Hp) as W2.
+        eapply GW_frame; [| | | | | |exact W2].
+        * rewrite !sp_calls. reflexivity.
+        * rewrite !sp_waiters. reflexivity.
+        * rewrite !sp_permits. reflexivity.
+        * rewrite !sp_rx_closed. reflexivity.
+        * rewrite !sp_queue. reflexivity.
+        * rewrite !sp_q_cap. reflexivity.
+      + apply GL_set_phase; [|discriminate]. apply GL_slot_rx_close, GL_slot_tx_drop, G1.
+    - (* PAssigned *)
+      set (s1 := set_phase s i PClosing).
+      set (s2 := if rx_closed s1 then upd_q s1 (S (permits s1)) (queue s1) (waiters s1) true else release_permit s1).
+      destruct X as [A C W].
+      assert (Hidp : forall k, nth_error (calls s) i = Some k -> idp PClosing = true -> idp (c_phase k) = true).
+      { intros k Ek _. rewrite Ec in Ek. injection Ek as <-. rewrite Hp. reflexivity. }
+      assert (A1 : GA s1) by (apply GA_set_phase; [exact A|discriminate|exact Hidp]).
+      assert (C1 : GC s1) by (apply GC_set_phase; [exact C|exact Hidp]).
+      assert (G1 : GL s1) by (apply GL_set_phase; [exact G|discriminate]).
+      assert (W1 : GW 1 s1) by (eapply GW_unassign; [exact W|exact Ec|exact Hp|discriminate|discriminate]).
+      assert (Rc : rx_closed s1 = rx_closed s) by apply sp_rx_closed.
+      assert (Rq : queue s1 = queue s) by apply sp_queue.
+      assert (X2 : IX s2 /\ GL s2 /\ rx_closed s2 = rx_closed s /\ queue s2 = queue s).
+      { unfold s2. destruct (rx_closed s1) eqn:Ecl.
+        - destruct (GW_closed_elim _ _ W1 Ecl) as [Hw Hn].
+          split; [constructor|split; [|split; [cbn [rx_closed upd_q]; exact Rc|exact Rq]]].
+          + eapply GA_frame; [| |exact A1]; reflexivity.
+          + eapply GC_frame; [| | |exact C1]; reflexivity.
+          + apply GW_closed_intro; [reflexivity|exact Hw|exact Hn].
+          + eapply GL_frame; [| | | |exact G1]; reflexivity.
+        - split; [constructor|split; [|split; [rewrite rp_rx_closed, Ecl; exact Rc|rewrite rp_queue; exact Rq]]].
+          + eapply GA_release_permit; eassumption.
+          + eapply GC_release_permit; eassumption.
+          + apply GW_release_permit, W1.
+          + apply GL_release_permit, G1. }
+      destruct X2 as (X2 & G2 & R2 & Q2).
+      split; [apply IX_slot_rx_close, IX_slot_tx_drop, X2|].
+      split; [apply GL_slot_rx_close, GL_slot_tx_drop, G2|]. split; [exact R2|intros _; exact Q2].
+    - (* PAcqClosed *)
+      split; [|split; [apply GL_set_phase; [apply GL_slot_rx_close, GL_slot_tx_drop, G|discriminate]
+                      |split; [rewrite sp_rx_closed; reflexivity|intros _; rewrite sp_queue; reflexivity]]].
+      apply IX_set_phase; [apply IX_slot_rx_close, IX_slot_tx_drop, X|discriminate..|].
+      intros k Ek. change (nth_error (calls s) i = Some k) in Ek. rewrite Ec in Ek. injection Ek as <-.
+      rewrite Hp. repeat split; discriminate.
+    - (* PAwaiting *)
+      split; [|split; [apply GL_set_phase; [apply GL_slot_rx_close, G|discriminate]
+                      |split; [rewrite sp_rx_closed; reflexivity|intros _; rewrite sp_queue; reflexivity]]].
+      apply IX_set_phase; [apply IX_slot_rx_close, X|discriminate..|].
+      intros k Ek. change (nth_error (calls s) i = Some k) in Ek. rewrite Ec in Ek. injection Ek as <-.
+      rewrite Hp. repeat split; discriminate.
+  Qed.
+
+  Lemma guard_cancel_UI s i : IX s -> GL s -> UI s (guard_cancel s i).
+  Proof.
+    intros X G. unfold UI, guard_cancel.
+    destruct (nth_error (calls s) i) as [c|] eqn:Ec; [|auto].
+    destruct (c_phase c) eqn:Hp; auto.
+    set (x := push_cancel s (c_id c)).
+    assert (Fx : calls x = calls s /\ next_id x = next_id s /\ waiters x = waiters s /\
+                 permits x = permits s /\ rx_closed x = rx_closed s /\ queue x = queue s /\ q_cap x = q_cap s)
+      by (unfold x, push_cancel; destruct (dropped s); repeat split; reflexivity).
+    destruct Fx as (F1 & F2 & F3 & F4 & F5 & F6 & F7).
+    assert (Hlt : c_id c < next_id s) by (apply (a_lt _ _ (ix_a _ X) i c Ec); rewrite Hp; reflexivity).
+    assert (Hne : forall j kj, nth_error (calls s) j = Some kj -> j <> i -> idp (c_phase kj) = true ->
+                               c_id kj <> c_id c).
+    { intros j kj Hj Hn Hid E. apply Hn. eapply (a_inj _ _ (ix_a _ X)); try eassumption. rewrite Hp; reflexivity. }
+    destruct X as [A C W].
+    split; [constructor|split; [|split; [rewrite sp_rx_closed; exact F5|intros _; rewrite sp_queue; exact F6]]].
+    - apply GA_set_phase; [eapply GA_frame; [exact F1|exact F2|exact A]|discriminate|discriminate].
+    - eapply (GC_finish x s); [exact F1|exact F2|apply push_cancel_in|exact C|exact Hlt|exact Hne|reflexivity].
+    - apply GW_set_phase; [eapply GW_frame; [exact F1|exact F3|exact F4|exact F5|rewrite F6; reflexivity|exact F7|exact W]
+                          | |discriminate|discriminate].
+      rewrite F1. intros k Ek. rewrite Ec in Ek. injection Ek as <-. rewrite Hp. split; discriminate.
+    - apply GL_set_phase; [|discriminate].
+      eapply GL_mono; [exact F1| |exact G]. intros y L. apply loc_push_cancel, L.
+  Qed.
+
+  (* ---------------------------------------------------------------- dropping the dispatch *)
+  Definition sres s (y : N) : Prop :=
+    sl_val (get_slot s y) <> None \/ sl_tx_gone (get_slot s y) = true.
+  Lemma sres_loc s y : sres s y -> loc s y.
+  Proof. intro H. right; right; exact H. Qed.
+  Lemma sres_tx_drop s id y : sres s y -> sres (slot_tx_drop s id) y.
+  Proof.
+    unfold sres, slot_tx_drop. rewrite get_set_slot. destruct (N.eqb_spec y id) as [->|]; cbn; tauto.
+  Qed.
+  Lemma sres_tx_drop_same s id : sres (slot_tx_drop s id) id.
+  Proof. unfold sres, slot_tx_drop. rewrite get_set_slot, N.eqb_refl. right; reflexivity. Qed.
+  Lemma sres_fold_tx_drop {A} (f : A -> N) (l : list A) : forall s y,
+    sres s y \/ In y (map f l) -> sres (fold_left (fun acc p => slot_tx_drop acc (f p)) l s) y.
+  Proof.
+    induction l as [|x r IH]; intros s y H; cbn [fold_left].
+    - destruct H as [H|[]]; exact H.
+    - apply IH. cbn [map In] in H. destruct H as [H|[<-|H]]; auto.
+      + left. apply sres_tx_drop, H.
+      + left. apply sres_tx_drop_same.
+  Qed.
+  Lemma fold_tx_drop_fields {A} (f : A -> N) (l : list A) : forall s,
+    let s' := fold_left (fun acc p => slot_tx_drop acc (f p)) l s in
+    calls s' = calls s /\ next_id s' = next_id s /\ queue s' = queue s /\ inflight s' = inflight s /\
+    rx_closed s' = rx_closed s /\ waiters s' = waiters s.
+  Proof.
+    induction l as [|x r IH]; intro s; cbn [fold_left]; [repeat split; reflexivity|].
+    destruct (IH (slot_tx_drop s (f x))) as (H1 & H2 & H3 & H4 & H5 & H6).
+    repeat split; assumption.
+  Qed.
+
+  Lemma Inv_drop_dispatch s : Inv s -> Inv (drop_dispatch s).
+  Proof.
+    intros [X G R Kk]. unfold drop_dispatch.
+    set (s1 := q_close s).
+    set (s2 := fold_left (fun acc q => slot_tx_drop acc (q_id q)) (queue s1) s1).
+    set (s3 := fold_left (fun acc p => slot_tx_drop acc (fst p)) (inflight s2) s2).
+    set (s4 := upd_q s3 (permits s3 + length (queue s3))%nat [] [] true).
+    pose proof (IX_q_close s X) as X1. pose proof (GL_q_close s G) as G1.
+    destruct (fold_tx_drop_fields q_id (queue s1) s1) as (E21 & E22 & E23 & E24 & E25 & E26). fold s2 in E21, E22, E23, E24, E25, E26.
+    destruct (fold_tx_drop_fields (@fst N ifentry) (inflight s2) s2) as (E31 & E32 & E33 & E34 & E35 & E36). fold s3 in E31, E32, E33, E34, E35, E36.
+    destruct X1 as [A1 C1 W1].
+    destruct (GW_closed_elim _ _ W1 (q_close_closed s)) as [Hw Hn].
+    constructor.
+    - constructor.
+      + apply (GA_frame s1); [cbn [calls upd_fin upd_cancels upd_if upd_q s4]; rewrite E31, E21; reflexivity
+                             |cbn [next_id upd_fin upd_cancels upd_if upd_q s4]; rewrite E32, E22; reflexivity|exact A1].
+      + constructor; cbn [cancels upd_fin upd_cancels]; [intros x []|intros x i k []].
+      + apply GW_closed_intro; [reflexivity|reflexivity|].
+        cbn [calls upd_fin upd_cancels upd_if upd_q s4]. rewrite E31, E21. exact Hn.
+    - intros i k Hk Hp. cbn [calls upd_fin upd_cancels upd_if upd_q s4] in Hk. rewrite E31, E21 in Hk.
+      apply sres_loc. unfold sres, get_slot. cbn [slots upd_fin upd_cancels upd_if upd_q s4].
+      change (sres s3 (c_id k)). apply sres_fold_tx_drop.
+      destruct (G1 i k Hk Hp) as [L|[L|L]].
+      + left. apply sres_fold_tx_drop. right. exact L.
+      + right. rewrite E24. exact L.
+      + left. apply sres_fold_tx_drop. left. exact L.
+    - constructor; cbn [rx_closed terminal dropped queue inflight upd_fin upd_cancels upd_if upd_q s4]; auto.
+    - constructor; cbn; [reflexivity|lia].
+  Qed.
+
+  (* ---------------------------------------------------------------- every op keeps the invariant *)
+  Lemma UI_trans s1 s2 s3 : UI s1 s2 -> UI s2 s3 -> UI s1 s3.
+  Proof.
+    intros (_ & _ & R1 & Q1) (X & G & R2 & Q2). split; [exact X|]. split; [exact G|].
+    split; [congruence|]. intro Hc. rewrite Q2, Q1; [reflexivity|exact Hc|congruence].
+  Qed.
+  Lemma UI_refl s : IX s -> GL s -> UI s s.
+  Proof. intros X G. split; [exact X|]. split; [exact G|]. auto. Qed.
+
+  Lemma Inv_UI s s' : Inv s -> UFrame s s' -> UI s s' -> Inv s'.
+  Proof.
+    intros [X G [R1 R2] Kk] F (X' & G' & Rc & Rq). constructor; [exact X'|exact G'| |eapply K_U; eassumption].
+    constructor.
+    - rewrite Rc, (uf_terminal _ _ F), (uf_dropped _ _ F). exact R1.
+    - unfold dead. rewrite (uf_finished _ _ F), (uf_dropped _ _ F). intro Hd.
+      destruct (R2 Hd) as (A & B & C). split; [congruence|]. split; [rewrite (Rq A); exact B|].
+      rewrite (uf_inflight _ _ F). exact C.
+  Qed.
+
+  Lemma nth_error_snoc {A} (l : list A) (x k : A) j :
+    nth_error (l ++ [x]) j = Some k -> nth_error l j = Some k \/ (j = length l /\ k = x).
+  Proof.
+    intro H. destruct (Nat.lt_ge_cases j (length l)) as [L|L].
+    - left. rewrite nth_error_app1 in H by exact L. exact H.
+    - right. rewrite nth_error_app2 in H by exact L.
+      destruct (j - length l)%nat eqn:E; cbn in H; [|destruct n; discriminate].
+      injection H as <-. split; [lia|reflexivity].
+  Qed.
+
+  Lemma UI_new_call s (x : call) :
+    IX s -> GL s -> (c_phase x = PNew \/ c_phase x = PGone) -> UI s (upd_calls s (calls s ++ [x])).
+  Proof.
+    intros [[A1 A2 A3] [C1 C2] [W1 W2 W3 W4 W5 W6]] G Hx.
+    assert (Hidp : idp (c_phase x) = false) by (destruct Hx as [-> | ->]; reflexivity).
+    assert (Hasg : is_asg x = false) by (unfold is_asg; destruct Hx as [-> | ->]; reflexivity).
+    assert (Hold : forall j k, nth_error (calls s ++ [x]) j = Some k ->
+                     (idp (c_phase k) = true \/ c_phase k = PAcquiring \/ c_phase k = PAwaiting) ->
+                     nth_error (calls s) j = Some k).
+    { intros j k Hj Hk. destruct (nth_error_snoc _ _ _ _ Hj) as [H|[_ ->]]; [exact H|].
+      exfalso. destruct Hx as [E|E]; rewrite E in Hk; cbn in Hk; intuition discriminate. }
+    split; [constructor; constructor; cbn [calls next_id cancels waiters rx_closed permits queue q_cap upd_calls]|].
+    - intros j k Hj Hk. eapply A1; [apply Hold; eauto|exact Hk].
+    - intros j1 j2 k1 k2 H1 H2 I1 I2. apply A2; auto.
+    - rewrite count_app, app_length. cbn [length]. unfold count at 2. cbn [filter].
+      destruct (is_new x); cbn [length]; lia.
+    - exact C1.
+    - intros y j k Hy Hj Hk. eapply C2; [exact Hy|apply Hold; eauto|exact Hk].
+    - intros w Hw. destruct (W1 w Hw) as (k & Ek & Ep). exists k. split; [|exact Ep].
+      rewrite nth_error_app1; [exact Ek|]. apply nth_error_Some. congruence.
+    - exact W2.
+    - exact W3.
+    - intros j k Hj Hk. eapply W4; [apply Hold; eauto|exact Hk].
+    - exact W5.
+    - intro Hc. rewrite count_app. unfold count at 2. cbn [filter]. rewrite Hasg. cbn [length].
+      specialize (W6 Hc). lia.
+    - split; [|split; [reflexivity|reflexivity]].
+      intros j k Hj Hk. cbn [calls upd_calls] in Hj.
+      pose proof (G j k (Hold j k Hj (or_intror (or_intror Hk))) Hk) as L.
+      unfold loc, get_slot in *. exact L.
+  Qed.
+
+  Variable fuel_of : cstate -> nat.
+
+  Lemma Inv_step s o : Inv s -> NW s -> Inv (fst (step tp fuel_of s o)).
+  Proof.
+    intros I Hnw.
+    assert (Easy : forall s', UI s s' -> UFrame s s' -> Inv s') by (intros; eapply Inv_UI; eassumption).
+    pose proof (iv_x _ I) as X. pose proof (iv_l _ I) as G.
+    destruct o; cbn [step fst].
+    - (* CloneHandle *)
+      destruct (nth_error (handles s) h) as [[|]|]; try exact I.
+      apply Easy; [|apply UFrame_upd_misc]. unfold UI.
+      split; [eapply IX_same; [..|exact X]; reflexivity|].
+      split; [eapply GL_frame; [..|exact G]; reflexivity|auto].
+    - (* DropHandle *)
+      destruct (nth_error (handles s) h) as [[|]|]; try exact I.
+      apply Easy; [|apply UFrame_upd_misc]. unfold UI.
+      split; [eapply IX_same; [..|exact X]; reflexivity|].
+      split; [eapply GL_frame; [..|exact G]; reflexivity|auto].
+    - (* Call *)
+      apply Easy; [|apply UFrame_upd_calls]. apply UI_new_call; [exact X|exact G|].
+      cbn [c_phase]. destruct (nth_error (handles s) h) as [[|]|]; auto.
+    - (* PollCall *)
+      pose proof (poll_call_UI s i X G Hnw) as U. pose proof (UFrame_poll_call s i) as F.
+      destruct (poll_call s i) as [r s1]. cbn [fst snd] in *. eapply Inv_UI; eassumption.
+    - (* DropCall *)
+      destruct (option_map c_phase (nth_error (calls s) i)) as [[]|];
+        try exact I;
+        (pose proof (guard_close_UI s i X G) as U1;
+         pose proof (guard_cancel_UI (guard_close s i) i (proj1 U1) (proj1 (proj2 U1))) as U2;
+         apply Easy; [eapply UI_trans; eassumption
+                     |eapply UFrame_trans; [apply UFrame_guard_close|apply UFrame_guard_cancel]]).
+    - (* GuardClose *)
+      destruct (option_map c_phase (nth_error (calls s) i)) as [[]|];
+        try exact I; (apply Easy; [apply guard_close_UI; assumption|apply UFrame_guard_close]).
+    - (* GuardCancel *)
+      apply Easy; [apply guard_cancel_UI; assumption|apply UFrame_guard_cancel].
+    - (* PollDispatch *)
+      destruct (finished s) eqn:Ef; [exact I|]. destruct (dropped s) eqn:Ed; [exact I|].
+      destruct (poll_dispatch tp _ _) as [r s1] eqn:Ep. cbn [fst].
+      exact (Inv_after_pd _ _ _ _ Ep I Ef Ed).
+    - (* DropDispatch *)
+      destruct (dropped s); [exact I|apply Inv_drop_dispatch, I].
+    - (* Advance *)
+      apply Easy; [|apply UFrame_upd_misc]. unfold UI.
+      split; [eapply IX_same; [..|exact X]; reflexivity|].
+      split; [eapply GL_frame; [..|exact G]; reflexivity|auto].
+    - (* Tr *)
+      apply Easy; [|constructor; reflexivity]. unfold UI.
+      split; [eapply IX_same; [..|exact X]; reflexivity|].
+      split; [eapply GL_frame; [..|exact G]; reflexivity|auto].
+  Qed.
 End WInv.
